@@ -8,6 +8,7 @@ import (
 	"reflect"
 	"sort"
 	"strings"
+	"sync"
 	"testing"
 
 	"github.com/dadrus/heimdall/internal/config"
@@ -471,6 +472,48 @@ func TestC15(t *testing.T) {
 		if len(fwd) > 0 {
 			r.Count("requests_with_forwarding_headers", 1)
 		}
+	}
+	// concurrent requests whose bodies are read by the pipeline (rules p1, p3: odd index): each upstream request carries
+	// exactly the body of its own client request
+	{
+		var wg sync.WaitGroup
+		const workers, perWorker = 8, 120
+		for w := 0; w < workers; w++ {
+			wg.Add(1)
+			go func(w int) {
+				defer wg.Done()
+				for k := 0; k < perWorker; k++ {
+					reqID := nextReqID("c15c")
+					marker := fmt.Sprintf("<w%d-k%d>", w, k)
+					body := []byte(strings.Repeat(marker, 200+(w*37+k*11)%1800))
+					rule := []string{"p1", "p3/api"}[k%2]
+					hdrs := []app.Hdr{{Name: app.HdrReq, Value: reqID}, {Name: "Content-Type", Value: []string{"text/plain", "application/json"}[k%2]}}
+					if k%5 == 0 {
+						hdrs = append(hdrs, app.Hdr{Name: app.HdrChunked, Value: "1"})
+					}
+					resp, err := app.RawDo(insts[0].a.Addr(), "POST", "/"+rule+"/conc", "client.example.com", hdrs, body)
+					hits := up.Take(reqID)
+					r.Eval(1)
+					if err != nil || len(hits) != 1 {
+						if err == nil && resp.Status == 200 {
+							r.Violation("accepted-but-upstream-hits-"+fmt.Sprint(len(hits)), fmt.Sprintf("concurrent phase: status 200 with %d upstream hits", len(hits)), map[string]any{"rule": rule, "marker": marker})
+						}
+						r.Count("concurrent_requests_not_forwarded", 1)
+						continue
+					}
+					r.Count("concurrent_requests_with_bodies_read_by_the_pipeline", 1)
+					if hits[0].Body != string(body) {
+						other := ""
+						if i := strings.Index(hits[0].Body, "<w"); i >= 0 && i+12 <= len(hits[0].Body) {
+							other = hits[0].Body[i : i+12]
+						}
+						r.Violation("body-changed", fmt.Sprintf("concurrent phase: upstream body of request %s has %d bytes (starts with %q), client sent %d bytes of %q", reqID, len(hits[0].Body), other, len(body), marker),
+							map[string]any{"rule": rule, "marker": marker, "upstream_body_length": len(hits[0].Body), "client_body_length": len(body)})
+					}
+				}
+			}(w)
+		}
+		wg.Wait()
 	}
 	c15CreateURL(r)
 	r.Require("forwarded", r.Counter("forwarded"), int64(n/2))
